@@ -45,6 +45,8 @@ pub struct Dial {
     pub start_step: usize,
     pub hs: Option<usize>,
     pub conn: Option<usize>,
+    /// the library has seen the outcome (future returned Ready) or dropped the future
+    pub observed: bool,
 }
 
 #[derive(Debug)]
@@ -55,6 +57,7 @@ pub struct Hs {
     pub state: AsyncState,
     pub waker: Option<Waker>,
     pub conn: Option<usize>,
+    pub observed: bool,
 }
 
 #[derive(Debug)]
@@ -89,6 +92,9 @@ pub struct Conn {
     /// step at which a checkout obtained the freshly established connection (and registered it)
     pub taken_step: Option<usize>,
     pub ever_handed_back: bool,
+    /// last step at which the pool (may have) moved this connection: hand-off, hand-back,
+    /// check-out by an issued request, return by a cancelled one
+    pub last_touch_step: usize,
 }
 
 #[derive(Debug)]
@@ -142,6 +148,8 @@ pub struct World {
     pub trace: bool,
     pub commutative: u64,
     pub t0: Option<tokio::time::Instant>,
+    /// (is_h2, conn): HTTP/1 hand-backs and HTTP/2 registrations of the current step, in order
+    pub reg_events: Vec<(bool, usize)>,
 }
 
 impl World {
@@ -166,6 +174,20 @@ impl World {
     }
     pub fn flag(&mut self, property: &'static str, rule: &'static str, sig: serde_json::Value, detail: String) {
         self.flags.push(Flag { property, rule, sig, detail });
+    }
+    /// The attempt behind dial `d` has not ended from the library's point of view.
+    pub fn attempt_in_flight(&self, d: usize) -> bool {
+        let dial = &self.dials[d];
+        if !dial.observed {
+            return true;
+        }
+        if dial.state != AsyncState::Taken {
+            return false; // failed or dropped, and the library knows
+        }
+        match dial.hs {
+            Some(h) => !self.hss[h].observed,
+            None => true, // stream obtained, handshake not started yet
+        }
     }
     pub fn conn_is_open(&self, c: usize) -> bool {
         let c = &self.conns[c];
@@ -237,12 +259,14 @@ impl Future for DialFuture {
             }
             AsyncState::Ok => {
                 w.dials[id].state = AsyncState::Taken;
+                w.dials[id].observed = true;
                 w.ev(11, id as u64, 0);
                 drop(w);
                 self.done = true;
                 Poll::Ready(Ok(SimIo { dial: id, w: self.w.clone() }))
             }
             AsyncState::Failed => {
+                w.dials[id].observed = true;
                 w.ev(12, id as u64, 0);
                 drop(w);
                 self.done = true;
@@ -260,6 +284,7 @@ impl Drop for DialFuture {
             let id = self.id;
             if matches!(w.dials[id].state, AsyncState::Pending | AsyncState::Ok) {
                 w.dials[id].state = AsyncState::Dropped;
+                w.dials[id].observed = true;
                 w.ev(13, id as u64, 0);
             }
         }
@@ -291,6 +316,7 @@ impl tower::Service<http::request::Parts> for SimTransport {
             start_step: step,
             hs: None,
             conn: None,
+            observed: false,
         });
         w.ev(10, id as u64, owner.map(|o| o as u64).unwrap_or(999));
         DialFuture { w: self.w.clone(), id, done: false }
@@ -324,18 +350,24 @@ impl Future for HsFuture {
             }
             AsyncState::Ok => {
                 w.hss[id].state = AsyncState::Taken;
+                w.hss[id].observed = true;
                 let conn = w.hss[id].conn.expect("conn created at HsOk");
                 w.conns[conn].handles_live += 1;
                 let step = w.step;
                 let now = w.tick();
                 w.conns[conn].taken_step = Some(step);
                 w.conns[conn].last_activity_ms = now;
+                if w.conns[conn].h2 {
+                    // the checkout that obtained a shareable connection registers it at once
+                    w.reg_events.push((true, conn));
+                }
                 w.ev(21, id as u64, conn as u64);
                 drop(w);
                 self.done = true;
                 Poll::Ready(Ok(SimConn { w: self.w.clone(), conn }))
             }
             AsyncState::Failed => {
+                w.hss[id].observed = true;
                 w.ev(22, id as u64, 0);
                 drop(w);
                 self.done = true;
@@ -354,6 +386,7 @@ impl Drop for HsFuture {
             if matches!(w.hss[id].state, AsyncState::Pending | AsyncState::Ok) {
                 let was_ok = w.hss[id].state == AsyncState::Ok;
                 w.hss[id].state = AsyncState::Dropped;
+                w.hss[id].observed = true;
                 w.ev(23, id as u64, 0);
                 if was_ok {
                     // the connection was established but nobody will ever hold it
@@ -383,7 +416,7 @@ impl<B> tower::Service<ProtocolRequest<SimIo, B>> for SimProtocol {
         let dial = req.transport.dial;
         let origin = w.dials[dial].origin.clone();
         let h2 = matches!(req.version, HttpProtocol::Http2) || w.alpn_h2_origins.contains(&origin);
-        w.hss.push(Hs { id, dial, h2, state: AsyncState::Pending, waker: None, conn: None });
+        w.hss.push(Hs { id, dial, h2, state: AsyncState::Pending, waker: None, conn: None, observed: false });
         w.dials[dial].hs = Some(id);
         w.ev(20, id as u64, dial as u64);
         HsFuture { w: self.w.clone(), id, done: false, _io: req.transport }
@@ -547,6 +580,8 @@ impl<B> Connection<B> for SimConn {
             w.conns[c].idle_since = Some(now);
             w.conns[c].last_activity_ms = now;
             w.conns[c].ever_handed_back = true;
+            w.conns[c].last_touch_step = step;
+            w.reg_events.push((false, c));
         }
         w.ev(32, c as u64, unheld as u64);
         Poll::Ready(Ok(()))
@@ -704,8 +739,7 @@ fn on_handoff(w: &W, r: u32, c: usize) {
             // Only the request that popped the entry at its own issue instant is judged: nothing may
             // have happened to the connection between that instant and this hand-off (a hand-off to
             // or hand-back from somebody else means it reached us through a waiter channel later).
-            let untouched = w.conns[c].last_handoff_step.map(|s| s < issue_step).unwrap_or(true)
-                && w.conns[c].handback_step.map(|s| s < issue_step).unwrap_or(true);
+            let untouched = w.conns[c].last_touch_step <= issue_step;
             if let Some((_, since)) = snap.iter().find(|(cid, _)| *cid == c).filter(|_| untouched) {
                 // the connection was sitting in the pool when the request was issued
                 if issue_ms.saturating_sub(*since) > t {
@@ -730,5 +764,6 @@ fn on_handoff(w: &W, r: u32, c: usize) {
     conn.last_handoff_step = Some(step);
     conn.idle_since = None;
     conn.last_activity_ms = now;
+    conn.last_touch_step = step;
     w.handoffs.push(Handoff { step, ms: now, req: r, conn: c, fresh });
 }
